@@ -672,7 +672,11 @@ func emitServe(t *tracer, m *cors.Middleware, dbg bool, rs reqSpec, pre http.Hea
 	var s served
 	w := newRec()
 	for k, v := range pre {
-		w.h[k] = append([]string(nil), v...)
+		if v != nil && len(v) == 0 {
+			w.h[k] = make([]string, 0, cap(v)) // a key with no field line: empty but not nil, possibly with spare capacity
+		} else {
+			w.h[k] = append([]string(nil), v...)
+		}
 	}
 	var entry, after http.Header
 	if inner == nil {
@@ -1019,8 +1023,9 @@ func cmdServe(args []string) {
 			pre   http.Header
 			inner *innerSpec
 			layer int
+			third bool // the variant takes a quarter of the block's requests
 		}
-		variants := []variant{{nil, nil, 0}}
+		variants := []variant{{nil, nil, 0, false}}
 		presetVary := http.Header{"Vary": {"Accept-Encoding"}, "X-Pre": {"1"}}
 		presetAll := http.Header{"Vary": {"Accept-Encoding", "Cookie"}, "X-Pre": {"1"}, "Access-Control-Allow-Origin": {"https://preset.example"},
 			"Access-Control-Max-Age": {"9"}, "Access-Control-Allow-Methods": {"PRESET"}, "Content-Type": {"text/plain"}}
@@ -1030,16 +1035,26 @@ func cmdServe(args []string) {
 		switch *prop {
 		case "C10":
 			// Vary values set earlier in the chain, incl. ones that already end in / contain "Origin"
-			variants = append(variants, variant{presetVary, nil, 0},
-				variant{http.Header{"Vary": {"Accept-Encoding, Origin"}}, nil, 0},
-				variant{http.Header{"Vary": {"X-Forwarded-Origin"}}, nil, 0})
+			variants = append(variants, variant{presetVary, nil, 0, false},
+				variant{http.Header{"Vary": {"Accept-Encoding, Origin"}}, nil, 0, false},
+				variant{http.Header{"Vary": {"X-Forwarded-Origin"}}, nil, 0, false})
 		case "C11":
-			variants = append(variants, variant{presetAll, nil, 0}, variant{nil, busy, 0}, variant{presetVary, silent, 0}, variant{presetAll, busy, 0},
-				variant{nil, &innerSpec{Status: 200, Reenter: true}, 0})
+			variants = append(variants, variant{presetAll, nil, 0, false}, variant{nil, busy, 0, false}, variant{presetVary, silent, 0, false}, variant{presetAll, busy, 0, false},
+				variant{nil, &innerSpec{Status: 200, Reenter: true}, 0, false})
 		case "C03":
 			if !s.Pass {
-				variants = append(variants, variant{nil, nil, 1}, variant{nil, nil, 2})
+				variants = append(variants, variant{nil, nil, 1, true}, variant{nil, nil, 2, true})
 			}
+			// a writer whose header map already has the KEYS the middleware works with, without any field line: nil, and empty
+			// with spare capacity (what `h[k] = h[k][:0]` leaves behind) - no header is there, and none of this may matter
+			touched := []string{"Vary", "Access-Control-Allow-Origin", "Access-Control-Allow-Credentials", "Access-Control-Expose-Headers",
+				"Access-Control-Allow-Methods", "Access-Control-Allow-Headers", "Access-Control-Max-Age", "Access-Control-Allow-Private-Network"}
+			keysNil, keysEmpty := http.Header{}, http.Header{}
+			for _, k := range touched {
+				keysNil[k] = nil
+				keysEmpty[k] = make([]string, 0, 2)
+			}
+			variants = append(variants, variant{keysNil, nil, 0, true}, variant{keysEmpty, nil, 0, true})
 		}
 		for _, dbg := range []bool{false, true} {
 			m.SetDebug(dbg)
@@ -1047,7 +1062,7 @@ func cmdServe(args []string) {
 			for vi, vr := range variants {
 				t.emit(map[string]any{"ev": "Block", "dbg": dbg, "variant": vi})
 				for ri, rs := range reqs {
-					if vr.layer != 0 && ri%3 != nth%3 {
+					if vr.third && ri%4 != (nth+vi)%4 {
 						continue // the layered variants take a third of the block
 					}
 					// the scribbling handler runs AFTER the carry-over probes (nothing may touch what the previous configuration
